@@ -459,6 +459,10 @@ func (e *exec) field(objType string, obj *Obj, c *collected, path string) (strin
 			return strconv.Quote(fmt.Sprintf("first=%v|last=%v|sep=%v", a["first"], a["last"], a["sep"])), true
 		case "Item.title":
 			return strconv.Quote(obj.Title), true
+		case "Box.seal":
+			return strconv.Quote("seal:" + obj.ID), true
+		case "Box.code":
+			return "7", true
 		}
 	}
 	pid := ""
